@@ -147,3 +147,108 @@ fn c23_cancel_at_every_callback() {
     println!("VERIF-B-SAMPLE violation classes this run: {:?}", counts);
     println!("VERIF-B unit=reader test=c23_cancel_at_every_callback evaluations={evals} nontrivial={nontrivial} exhaustive=true domain=every callback index k of a full run x {{read CA.jpg, C.jpg, video1.mp4, sample1.gif, exp-test1.png; sign IMG_0003.jpg, libpng-test.png, video1_no_manifest.mp4; read and sign IMG_0003.jpg with a box hash}}");
 }
+
+// ---------------------------------------------------------------- C35 (Engine B): short reads and injected I/O faults at the public API
+// (a) a stream that returns data in small pieces gives the same result as the plain stream;
+// (b) a stream that breaks at its k-th operation (that read / seek and all later ones fail), for EVERY k of a full
+//     run, makes the read return an error -
+//     never a panic and never a result that reports Valid / Trusted.
+#[cfg(test)]
+struct Wrapped {
+    inner: std::io::Cursor<Vec<u8>>,
+    piece: usize,                    // 0 = unlimited
+    fail_at: Option<usize>,          // from this operation index on every operation fails (the stream is broken)
+    ops: std::sync::Arc<std::sync::atomic::AtomicUsize>,
+}
+#[cfg(test)]
+impl Wrapped {
+    fn tick(&self) -> std::io::Result<()> {
+        let k = self.ops.fetch_add(1, std::sync::atomic::Ordering::SeqCst);
+        if self.fail_at.is_some_and(|f| k >= f) {
+            return Err(std::io::Error::other("injected fault"));
+        }
+        Ok(())
+    }
+}
+#[cfg(test)]
+impl std::io::Read for Wrapped {
+    fn read(&mut self, buf: &mut [u8]) -> std::io::Result<usize> {
+        self.tick()?;
+        let n = if self.piece == 0 { buf.len() } else { buf.len().min(self.piece) };
+        std::io::Read::read(&mut self.inner, &mut buf[..n])
+    }
+}
+#[cfg(test)]
+impl std::io::Seek for Wrapped {
+    fn seek(&mut self, p: std::io::SeekFrom) -> std::io::Result<u64> {
+        self.tick()?;
+        std::io::Seek::seek(&mut self.inner, p)
+    }
+}
+
+#[test]
+fn c35_short_reads_and_injected_faults() {
+    use std::sync::{atomic::{AtomicUsize, Ordering}, Arc};
+    let thorough = std::env::var("VERIF_B_TIER").map(|t| t == "thorough").unwrap_or(false);
+    let mut evals = 0usize;
+    let mut nontrivial = 0usize;
+    let mut counts: std::collections::BTreeMap<String, usize> = std::collections::BTreeMap::new();
+    let mut bad = |k: String, input: String, counts: &mut std::collections::BTreeMap<String, usize>| {
+        let c = counts.entry(k.clone()).or_insert(0);
+        *c += 1;
+        if *c <= 3 {
+            println!("VERIF-B-VIOLATION key={k} input={input}");
+        }
+    };
+    let describe = |r: &Result<Reader>| -> String {
+        match r {
+            Ok(rd) => format!("Ok({:?}, active={:?})", rd.validation_state(), rd.active_label()),
+            Err(e) => format!("Err({})", e.to_string().chars().take(60).collect::<String>()),
+        }
+    };
+    for (file, mime) in [("C.jpg", "image/jpeg"), ("CA.jpg", "image/jpeg"), ("video1.mp4", "video/mp4"), ("libpng-test.png", "image/png"), ("sample1.gif", "image/gif"), ("no_manifest.jpg", "image/jpeg")] {
+        let Ok(bytes) = std::fs::read(crate::utils::test::fixture_path(file)) else { continue };
+        let read_with = |piece: usize, fail_at: Option<usize>| -> (Result<Reader>, usize, bool) {
+            let ops = Arc::new(AtomicUsize::new(0));
+            let w = Wrapped { inner: std::io::Cursor::new(bytes.clone()), piece, fail_at, ops: Arc::clone(&ops) };
+            let r = std::panic::catch_unwind(std::panic::AssertUnwindSafe(|| Reader::from_context(crate::utils::test::test_context()).with_stream(mime, w)));
+            match r {
+                Ok(r) => (r, ops.load(Ordering::SeqCst), false),
+                Err(_) => (Err(Error::OtherError("panic".into())), ops.load(Ordering::SeqCst), true),
+            }
+        };
+        let (plain, total_ops, _) = read_with(0, None);
+        let want = describe(&plain);
+        // (a) short reads
+        for piece in [1usize, 2, 3, 7, 16, 1000] {
+            evals += 1;
+            nontrivial += 1;
+            let (r, _, panicked) = read_with(piece, None);
+            if panicked {
+                bad("io.short_read_panic".to_string(), format!("{file}: piece size {piece}"), &mut counts);
+            } else if describe(&r) != want {
+                bad("io.result_depends_on_read_size".to_string(), format!("{file}: piece size {piece}: {} instead of {want}", describe(&r)), &mut counts);
+            }
+        }
+        // (b) a fault at every operation index (quick: every index up to 400, then every 13th)
+        let mut k = 0usize;
+        while k < total_ops {
+            evals += 1;
+            nontrivial += 1;
+            let (r, _, panicked) = read_with(0, Some(k));
+            if panicked {
+                bad("io.fault_panic".to_string(), format!("{file}: fault at operation {k} of {total_ops}"), &mut counts);
+            } else if let Ok(rd) = &r {
+                if rd.validation_state() != ValidationState::Invalid {
+                    bad("io.fault_hidden_result_valid".to_string(), format!("{file}: fault at operation {k} of {total_ops} -> {}", describe(&r)), &mut counts);
+                } else {
+                    bad("io.fault_hidden_result_ok".to_string(), format!("{file}: fault at operation {k} of {total_ops} -> {}", describe(&r)), &mut counts);
+                }
+            }
+            k += if thorough || k < 400 { 1 } else { 13 };
+        }
+        println!("VERIF-B-SAMPLE {file}: plain read {want}, {total_ops} stream operations");
+    }
+    println!("VERIF-B-SAMPLE violation classes this run: {:?}", counts);
+    println!("VERIF-B unit=reader test=c35_short_reads_and_injected_faults evaluations={evals} nontrivial={nontrivial} exhaustive={} domain=read of C.jpg, CA.jpg, video1.mp4, libpng-test.png, sample1.gif, no_manifest.jpg x piece sizes {{1,2,3,7,16,1000}} and an I/O fault at every stream operation index (quick: all below 400, then every 13th)", thorough);
+}
